@@ -21,7 +21,8 @@ import Verif.Model.Common
                            `base.AuthorizeRenew`, `Uninitialized` (embedded provisioner whose
                            controller is nil), jwk.go/x5c.go/… `p.ctl.AuthorizeRenew`,
                            controller.go `Controller.AuthorizeRenew`, `DefaultAuthorizeRenew`
-  * `authorizeRenew`       authority/authorize.go `authorizeRenew`
+  * `selectProvisioner`, `callAuthorizeRenew`, `authorizeRenew`
+                           authority/authorize.go `authorizeRenew` (lookup with no-op fallback; the call)
   * `authorizeRenewToken`  authority/authorize.go `AuthorizeRenewToken` (decision skeleton)
   * `apiRenew`             api/renew.go `Renew` + `getPeerCertificate`, api/rekey.go `Rekey`
   * `renew`                authority/tls.go `RenewContext` = gate, template, CAS
